@@ -438,7 +438,7 @@ func (ck *distinfoLinesChecker) checkPatchSha1(line *Line, patchFileName Package
 		fix.Explain(
 			"To fix the hashes, either let pkglint --autofix do the work",
 			sprintf("or run %q.", bmake("makepatchsum")))
-		fix.Replace(distinfoSha1Hex, fileSha1Hex)
+		fix.ReplaceAfter(") = ", distinfoSha1Hex, fileSha1Hex)
 		fix.Apply()
 	}
 }
